@@ -132,15 +132,21 @@ def gen_child_case(g, cid, opts=None):
     # From-only sub-family: some leaf-only nested structs are tuple structs, their members addressed by index (`#[child(a.b)] #[from(1, expr)]`)
     fc.from_only = (opts or {}).get("from_only", g.chance(0.2))
     fc.exprs = fc.from_only or g.chance(0.3)
-    if fc.from_only:
+    fc.tuple_into = (not fc.from_only) and (opts or {}).get("tuple_into", g.chance(0.3))
+    if fc.from_only or fc.tuple_into:
         for path, n in walk(fc.root):
             if path and not n.children and n.leaves and g.chance(0.7):
                 n.tuple = True
                 for i, l in enumerate(n.leaves):
                     l["name"] = i
+                if fc.tuple_into and len(n.leaves) >= 2 and g.chance(0.5):
+                    # a trailing member only the struct-level ghosts provide (`path@index: {..}`); positional filling puts ghosts last
+                    n.leaves[-1]["ghost_k"] = g.mark()
     for path, n in walk(fc.root):
         for l in n.leaves:
             roll = r.random()
+            if l["ghost_k"] is not None:
+                continue
             if roll < 0.15 and (path or len(n.leaves) > 1) and not n.tuple:
                 l["ghost_k"] = g.mark()     # counterpart-only leaf provided by struct-level #[ghosts(path@name: {..})]
                 continue
@@ -163,6 +169,13 @@ def gen_child_case(g, cid, opts=None):
         cls = "interleaved"
         order = perm_class_order(g, fields, cls)
     fc.perm = cls
+    if fc.tuple_into:
+        # a tuple-form nested struct is filled positionally: its members keep ascending index order among themselves
+        tpaths = {p for p, n in walk(fc.root) if n.tuple}
+        for tp in tpaths:
+            slots = [i for i, f in enumerate(order) if f["path"] == tp]
+            for i, f in zip(slots, sorted((order[i] for i in slots), key=lambda f: f["leaf"]["name"])):
+                order[i] = f
     fc.fields = order
     fc.depth = max(len(p) for p, _ in walk(fc.root))
     fc.branching = max([len(n.children) for _, n in walk(fc.root)] + [0])
@@ -185,7 +198,7 @@ def render_child_module(fc, g, fallible, draws):
     r.shuffle(names)
     for nm in names:
         it.attrs.append(Instr(FALLIBLE_NAME[nm] if fallible else nm, "trait", ty="T", hint=None, err="super::Er" if fallible else None, params=[]))
-    cps = [dict(path=".".join(p), ty=n.ty, hint=None) for p, n in walk(fc.root) if p]
+    cps = [dict(path=".".join(p), ty=n.ty, hint=("()" if (n.tuple and fc.tuple_into) else None)) for p, n in walk(fc.root) if p]
     r.shuffle(cps)
     if cps:
         it.attrs.append(Instr("child_parents", "child_parents", container=None, entries=cps))
@@ -387,6 +400,13 @@ def gen_bare_case(g, cid, opts=None):
         o = r.choice(fc.own)
         fc.overlap = dict(inner=0, field=o["name"], ty=o["ty"], k=g.mark() % 90 + 1)
     fc.depth, fc.branching, fc.perm = 1, len(fc.inners), "n/a"
+    # one leaf of the first inner type runs a fallible check in its Into expression (`chk(~, id)?`): when it fires, every fallible
+    # Into / IntoExisting flavour of the *outer* struct has to surface that error
+    fc.chk = None
+    if g.chance(0.5):
+        l = fc.inners[0]["leaves"][0]
+        l["ty"] = "i32"
+        fc.chk = g.mark()
     return fc
 
 
@@ -403,8 +423,11 @@ def render_bare_module(fc, g, fallible, draws):
         bi.attrs = [Instr(f("from_ref"), "trait", ty="T", hint=None, err=err, params=[]), Instr(f("into_existing"), "trait", ty="T", hint=None, err=err, params=[])]
         for l in b["leaves"]:
             # the inner type's own instructions carry a marker constant: routing through them is visible in the values
+            x = "~"
+            if fallible and fc.chk is not None and b is fc.inners[0] and l is b["leaves"][0]:
+                x = f"super::chk(~, {fc.chk})?"
             bi.fields.append(Field(l["name"], l["ty"], [Instr("from", "map", container=None, member=None, action=f"~.wrapping_add({l['k'] % 50 + 1})", braced=False),
-                                                        Instr("into", "map", container=None, member=None, action=f"~.wrapping_sub({l['k'] % 50 + 1})", braced=False)]))
+                                                        Instr("into", "map", container=None, member=None, action=f"{x}.wrapping_sub({l['k'] % 50 + 1})", braced=False)]))
         if fc.overlap and fc.inners.index(b) == fc.overlap["inner"]:
             bi.attrs.append(Instr("ghosts", "ghosts", container=None, entries=[dict(path=None, ident=fc.overlap["field"], action=str(fc.overlap["k"]))]))
         src = bi.render(derive="#[derive(Clone, Debug, PartialEq, Default, o2o::o2o)]")
@@ -445,8 +468,10 @@ def render_bare_module(fc, g, fallible, draws):
             v += [f"{l['name']}: s.{b['fname']}.{l['name']}.wrapping_sub({l['k'] % 50 + 1})," for l in b["leaves"]]
         v += [(f"{e['name']}: pre.{e['name']}," if existing else f"{e['name']}: Default::default(),") for e in fc.extra]
         return "T { " + " ".join(v) + " }"
-    L.append(f"fn ref_into(s: &S, pre: &T) -> {'Result<T, super::Er>' if fallible else 'T'} {{ {wrap(tvals(False))} }}")
-    L.append(f"fn ref_existing(s: &S, pre: &T) -> {'Result<T, super::Er>' if fallible else 'T'} {{ {wrap(tvals(True))} }}")
+    chk_path = f"s.{fc.inners[0]['fname']}.{fc.inners[0]['leaves'][0]['name']}" if fc.chk is not None else None
+    guard = f"if {chk_path} % 5 == 0 {{ return Err(super::Er({fc.chk})); }} " if (fallible and fc.chk is not None) else ""
+    L.append(f"fn ref_into(s: &S, pre: &T) -> {'Result<T, super::Er>' if fallible else 'T'} {{ {guard}{wrap(tvals(False))} }}")
+    L.append(f"fn ref_existing(s: &S, pre: &T) -> {'Result<T, super::Er>' if fallible else 'T'} {{ {guard}{wrap(tvals(True))} }}")
     tag = f"c{fc.cid}{'f' if fallible else 'i'}"
     D = ["pub fn run(log: &mut crate::rt::Log) {", f"    let mut r = crate::rt::Rng::new({fc.cid + 8500});", f"    for d in 0..{draws}usize {{"]
     D.append("        let t: T = T { " + " ".join(f"{t['name']}: {rng_call(t['ty'])}," for t in tfields) + " };")
@@ -456,6 +481,10 @@ def render_bare_module(fc, g, fallible, draws):
         b = next((x for x in fc.inners if x["fname"] == fl.name), None)
         svv.append(f"{fl.name}: {rng_call(fl.ty)}," if b is None else f"{fl.name}: {b['ty']} {{ " + " ".join(f"{l['name']}: {rng_call(l['ty'])}," for l in b["leaves"]) + " },")
     D.append("        let s: S = S { " + " ".join(svv) + " };")
+    if fc.chk is not None:
+        D.append(f"        let mut s = s; if d % 3 == 0 {{ {chk_path} = ({chk_path} / 5).wrapping_mul(5); }}")
+        if fallible:
+            D.append(f'        log.ev("{tag}", "chk_inputs", d, "", &format!("false,{{}}", {chk_path} % 5 == 0), "{fc.chk}");')
     D += conv_driver(tag, fallible, "ref_from(&t)", "ref_into(&s, &pre)", "ref_existing(&s, &pre)")
     D += ["    }", "}"]
     return "\n".join(L + D) + "\n", "\n".join(inputs + [derive_src])
